@@ -1390,7 +1390,7 @@ func (in *Interp) sliceElems(s SliceV) []Value {
 	if s.arr == nil || s.len == 0 {
 		return nil
 	}
-	in.logObj("rd", s.arr)
+	in.logObjRange("rd", s.arr, s.off, s.off+s.len)
 	return s.arr.v.(*ArrayV).e[s.off : s.off+s.len]
 }
 
@@ -1963,7 +1963,7 @@ func (in *Interp) builtin(fr *frame, site ssa.Instruction, b *ssa.Builtin, args 
 			copy(ne, old.e)
 			copy(ne[dst.off:dst.off+n], src[:n])
 			dst.arr.v = &ArrayV{e: ne}
-			in.logObj("wr", dst.arr)
+			in.logObjRange("wr", dst.arr, dst.off, dst.off+n)
 		}
 		return in.tt.Const(64, uint64(n))
 	case "delete":
@@ -2026,7 +2026,7 @@ func (in *Interp) appendSlice(s SliceV, add []Value, et types.Type) SliceV {
 		copy(ne, old.e)
 		copy(ne[s.off+s.len:], add)
 		s.arr.v = &ArrayV{e: ne}
-		in.logObj("wr", s.arr)
+		in.logObjRange("wr", s.arr, s.off+s.len, s.off+newLen)
 		return SliceV{arr: s.arr, off: s.off, len: newLen, cap: s.cap}
 	}
 	esz := in.ld.sizes.Sizeof(et)
